@@ -296,3 +296,78 @@ for relk in ('none', 'int'):
         key = '%s::Env._envgen_format#release-%s-loop-%s' % (F, relk, loopk)
         REGISTRY[key] = REGISTRY.pop('%s::Env._envgen_format' % F)
         REGISTRY[key].key = key
+
+
+# ---- client-side evaluation entry: Env._at(time) (C19) ---------------------------------------------------
+# every channel of the encoded envelope is evaluated at max(0, time - offset): the envelope starts
+# `offset` seconds after time zero, and nothing else decides which time is looked up (in particular not a
+# comparison of the caller's absolute time with the duration).
+def at_listcomp(eng, e, it, st, node):
+    # [self._env_at(d, time) for d in data]: the element expression evaluated for an arbitrary element
+    if not (len(e.generators) == 1 and isinstance(e.generators[0].target, ast.Name)):
+        return None
+    st2 = st
+    saved = st2.env.get(e.generators[0].target.id)
+    st2.env[e.generators[0].target.id] = V('obj', oid='a-channel')
+    rs = eng.eval(e.elt, st2)
+    if saved is not None:
+        st2.env[e.generators[0].target.id] = saved
+    if len(rs) != 1 or isinstance(rs[0][1], Raised):
+        raise Unsupported(node, 'element expression forks or raises')
+    st2.trace.append(('mapped-over', it, rs[0][1]))
+    return [(rs[0][0], V('obj', oid='per-channel-values', extra={'elt': rs[0][1]}))]
+
+
+import ast
+from vf.pyvc.engine import Raised
+
+
+def at_env_at(eng, selfv, args, kwargs, st, node):
+    r = V('obj', oid='level-of-channel')
+    st.trace.append(('env_at', tuple(args), r))
+    return [(st, r)]
+
+
+def at_format(eng, selfv, args, kwargs, st, node):
+    return [(st, V('obj', oid='channel-arrays'))]
+
+
+def at_unbubble(eng, selfv, args, kwargs, st, node):
+    st.trace.append(('unbubble', tuple(args)))
+    return [(st, V('obj', oid='unbubbled'))]
+
+
+def at_post(c):
+    ev = [e for e in c.trace if e[0] == 'env_at']
+    mp = [e for e in c.trace if e[0] == 'mapped-over']
+    ub = [e for e in c.trace if e[0] == 'unbubble']
+    if len(ev) != 1 or len(mp) != 1 or len(ub) != 1 or len(ev[0][1]) != 2:
+        return z3.BoolVal(False)
+    ch, t = ev[0][1]
+    ok = (ch.k == 'obj' and ch.oid == 'a-channel' and t.k in ('int', 'real')
+          and mp[0][1].k == 'obj' and mp[0][1].oid == 'channel-arrays' and mp[0][2] is ev[0][2]   # over ALL channels
+          and len(ub[0][1]) == 1 and ub[0][1][0].k == 'obj' and ub[0][1][0].oid == 'per-channel-values'
+          and c.resultv.k == 'obj' and c.resultv.oid == 'unbubbled')
+    if not ok:
+        return z3.BoolVal(False)
+    tz = to_real(t)
+    rel = to_real(c._params['time']) - c.pre.self.offset
+    return tz == z3.If(rel > 0, rel, 0)                                   # looked up at max(0, time - offset)
+
+
+def at_some_real(name):
+    def pol(eng, selfv, args, kwargs, st, node):
+        return [(st, vreal(eng.fresh(name, z3.RealSort())))]
+    return pol
+
+
+contract(F, 'Env._at', props=('C19',), params={'self': 'self', 'time': 'num'},
+         ensures=[('every-channel-evaluated-at-max(0,time-offset)', at_post)],
+         modifies=[], fields={'Env': {'offset': 'real'}},
+         hooks={'listcomp': at_listcomp},
+         # durations are some real numbers (not used by the unchanged function; known so that a change
+         # that starts comparing the time with them is decided instead of leaving the subset)
+         policies={'Env._env_at': at_env_at, 'Env._envgen_format': at_format, U + '::unbubble': at_unbubble,
+                   'Env.total_duration': at_some_real('total_duration'), 'Env.duration': at_some_real('duration'),
+                   'Env.release_time': at_some_real('release_time')},
+         inline=('max',), class_modules={'Env': F}, native=False)
